@@ -27,7 +27,7 @@ T = {
             "Capacity conservation is transition-local, so a cycle that loses a node fails at the release that loses it, for all interleavings of node/array operations on "
             "all three list implementations and the ordered debug node list.",
             "2/C04", TRUST),
-    "C05": ("explore", "model_checking", BFS + " over memory_arena<cached|uncached> and arena based allocators with a logging block source and upstream fault injection (deviation bound 1-2)",
+    "C05": ("explore", "model_checking", BFS + " over memory_arena<cached|uncached> and arena based allocators with a logging block source and upstream fault injection (deviation bound 1-2); page-commit model for the virtual source; exhaustive scope sequences of temporary allocators over a heap observed through wrapped malloc/free",
             "The upstream/block-source log is checked on every call: same address/size/parameters, LIFO, cache before source, nothing outstanding after destruction, no write into returned blocks.",
             "2/C05", TRUST),
     "C06": ("explore", "model_checking", BFS + " with mark/unwind(j)/shrink_to_fit/move; twin comparison against a snapshot of the state when the marker was taken",
@@ -43,10 +43,10 @@ T = {
     "C13": ("sched", "model_checking", "stateless exploration of all thread schedules of the real allocator_storage code under a cooperative scheduler with iterative preemption bounding (instrumented Mutex/allocator, no source hook)",
             "All schedules of every 2-3 thread program over all forwarding members (pairs quick, triples thorough) up to the preemption bound; lock ownership is checked at every entry into the wrapped allocator.",
             "2/C13", "sequentially consistent interleavings at mutex operations and allocator entry points; TSan side run (sampling) keeps plain data races visible; instrumented mutex stands for 'all mutex types'"),
-    "C15": ("explore", "model_checking", BFS + " restricted to the allocator_traits family with a net-bytes ledger per object identity as moved",
+    "C15": ("explore", "model_checking", BFS + " restricted to the allocator_traits family with a net-bytes ledger per object identity as moved; all thread schedules (every atomic operation a scheduling point) for the process-wide balance of the stateless allocators",
             "At every destruction reachable in the bounded configurations the leak handler must be called exactly once with the exact net (or not at all when balanced).",
             "2/C15", TRUST),
-    "C19": ("enum", "exploration", "exhaustive input enumeration (complete small domain x all alignments, boundary class around every power of two, all bucket selections) against 128-bit definitional references",
+    "C19": ("enum", "exploration", "exhaustive input enumeration (complete small domain x all alignments, boundary class around every power of two, all bucket selections) against 128-bit definitional references; explicit-state BFS over two collections of different max_node_size with moves for bucket selection after a move",
             "Exhaustive on the two input classes the property names; the full 2^64 x 64 product is not enumerable.",
             "2/C19", "unsigned __int128 reference arithmetic; g++ builtins"),
     "C20": ("faults", "fault_enumeration", "exhaustive enumeration of (helper, length 0..16, failing construction index, failing operation kind) on instrumented and real allocators",
@@ -70,7 +70,7 @@ T.update({
     "C10": ("compose", "exploration", "stateless DFS over all container operation sequences up to a depth on three containers bound to two instrumented allocator objects, differential against std::allocator; exhaustive element-type grid for the node size constants",
             "Every sequence up to the depth for every container family; per-allocator-object logs decide where each node is released; node size constants regenerated from /repo/cmake on every run.",
             "2/C10", "libstdc++ of this image; instrumented RawAllocator logs are trusted"),
-    "C11": ("compose", "exploration", "exhaustive enumeration of joint layouts x additional sizes x element counts x operation sequences over two joint_ptr slots on two instrumented upstream allocators",
+    "C11": ("compose", "exploration", "exhaustive enumeration of joint layouts x additional sizes x element counts x operation sequences over two joint_ptr slots on two instrumented upstream allocators; every release path of joint_ptr compiled with -O2 against a non-escaping block ledger",
             "Every layout/size/count combination of the grid and every operation sequence up to the depth; the instrumented upstream with guard bytes decides containment, alignment, single release.",
             "2/C11", "instrumented upstream is trusted"),
     "C17": ("enum", "exploration", "exhaustive input enumeration: every node size x alignment x byte offset of both fences x byte value on the four low-level allocators with a counting overflow handler; bounded exhaustive walk for fill patterns of arena allocators",
@@ -131,7 +131,7 @@ def main():
             {"name": "enum", "path": "harness/h_arith.cpp, h_fence.cpp, h_minblock.cpp, h_sweep.cpp", "serves_properties": ["C02", "C17", "C18", "C19"],
              "kind_free_text": "exhaustive enumeration of finite input domains against definitional references"},
             {"name": "faults", "path": "harness/h_exc.cpp", "serves_properties": ["C20"], "kind_free_text": "enumeration of every constructor failure point"},
-            {"name": "compose", "path": "harness/h_adapt.cpp, h_stl.cpp, h_joint.cpp", "serves_properties": ["C09", "C10", "C11"],
+            {"name": "compose", "path": "harness/h_adapt.cpp, h_stl.cpp, h_joint_p0..3.cpp, h_joint_x.cpp, h_jointlife.cpp", "serves_properties": ["C09", "C10", "C11"],
              "kind_free_text": "stateless DFS over all operation sequences up to a depth on wrapper compositions / containers / joint objects"},
         ],
         "checks": cks,
